@@ -342,9 +342,16 @@ def oracle(hist, out):
         if out.get("render") == "ok" and out.get("parses") and steps[-1]["r"] != "panic":
             items = out.get("items", [])
             dups = sorted(set(x for x in items if items.count(x) > 1))
+            import re as _re2
+            snake = lambda n: _re2.sub(r"(?<=[a-z0-9])(?=[A-Z])", "_", n).lower()
+            twice = [n for n, ids in by_name.items() if len(ids) >= 2]         # reported above as dup-name, with its finding
             for x in dups:
-                if x not in by_name or len(by_name[x]) < 2:
-                    fails.append(("dup-item", len(steps) - 1, {"item": x}, None))
+                if x in by_name and len(by_name[x]) >= 2: continue
+                # an item inside a module that belongs to a type emitted twice (its builder, its default functions) is that
+                # same duplicate, not another one
+                last = x.split("::")[-1]
+                if "::" in x and any(last == n or last.startswith(snake(n) + "_") for n in twice): continue
+                fails.append(("dup-item", len(steps) - 1, {"item": x}, None))
     return fails
 
 # ------------------------------------------------------------------ (iv) split / permutation
@@ -405,6 +412,29 @@ NATIVE_ROUTES = {
 }
 NATIVE_SETTINGS = [{"unknown": "Allow"}, {"crates": [["std", "*", None], ["uuid", "*", None], ["chrono", "*", None]]}]
 
+# definitions whose members have defaults served by the SHARED default functions (`defaults::default_bool`, `default_i64`,
+# `default_u64`, `default_nzu64`: state the type space accumulates across calls), by bespoke functions, or by none
+def _dprop(kind, rng):
+    if kind == "bool": return {"type": "boolean", "default": True}
+    if kind == "i64": return {"type": "integer", "default": rng.choice([-7, 3, 100])}
+    if kind == "u64": return {"type": "integer", "minimum": 0, "default": rng.choice([1, 9, 4096])}
+    if kind == "nz": return {"type": "integer", "minimum": 1, "default": rng.choice([1, 2, 77])}
+    if kind == "str": return {"type": "string", "default": rng.choice(["x", "hello"])}
+    if kind == "false": return {"type": "boolean", "default": False}
+    return {"type": "integer"}
+DEFAULT_KINDS = ["bool", "i64", "u64", "nz", "str", "false", "none"]
+def default_split_cases(rng, n):
+    out = []
+    for k in range(n):
+        def side(prefix):
+            ds = []
+            for j in range(rng.choice([1, 1, 2])):
+                kinds = rng.sample(DEFAULT_KINDS, rng.choice([1, 2, 3]))
+                ds.append(["%s%d" % (prefix, j), {"type": "object", "properties": {"%s%d" % (kd, i): _dprop(kd, rng) for i, kd in enumerate(kinds)}}])
+            return ds
+        out.append(("defaults", side("Aa"), side("Bb")))
+    return out
+
 def native_split_cases(rng, n):
     out = []
     for k in range(n):
@@ -436,6 +466,12 @@ def split_oracle(outs):
     for k in range(1, len(finals)):
         if finals[k] != finals[0]:
             return False, {"variant": k, "only_first": sorted(finals[0] - finals[k])[:3], "only_other": sorted(finals[k] - finals[0])[:3]}
+    # the rendered definitions, the shared default functions (`defaults::..`) and the builder module included
+    if all(o.get("render") == "ok" and o.get("parses") for o in outs):
+        its = [set(o.get("items", [])) for o in outs]
+        for k in range(1, len(its)):
+            if its[k] != its[0]:
+                return False, {"variant": k, "rendered_only_first": sorted(its[0] - its[k])[:3], "rendered_only_other": sorted(its[k] - its[0])[:3]}
     return True, None
 
 # ------------------------------------------------------------------ findings
@@ -500,7 +536,7 @@ def run(ctx):
             if fid is not None and fid in fids: known_hit[fid] = known_hit.get(fid, 0) + 1
             else: new_fail.append({"history": h, "clause": clause, "call": k, "detail": det, "kind": kind})
     # (iv) split / permutation
-    sc = split_cases(ctx, n_split_f, n_split_r)
+    sc = split_cases(ctx, n_split_f, n_split_r) + default_split_cases(ctx.rng, 24 if quick else 600)
     nsc = native_split_cases(ctx.rng, 12 if quick else 200)
     shs = [split_histories(a, b) for _, a, b in sc] + [split_histories(a, b, st_) for _, a, b, st_ in nsc]
     sc = sc + [(k_, a, b) for k_, a, b, _ in nsc]
